@@ -5,6 +5,7 @@ package vault
 // requests. The real handleCreateCommon (request side and role side) must refuse the combination.
 //
 //vx:pkg github.com/openbao/openbao/v2/internal/vault
+//vx:assume same stubs as harness/C07/create.go
 //vx:include ../C07/create.go
 //vx:param parents quick=1 thorough=2
 //vx:unwind 200
